@@ -44,6 +44,54 @@ def forbidden_name(names: set[str]) -> str | None:
     return None
 
 
+def selection_terms(ctx: Context) -> dict:
+    """Collection-algebra term of what the shard selection routine returns,
+    for every combination of {shard_filter, shards, custom_metadata_type_limit}
+    given / absent (shared with C12)."""
+    cached = ctx.__dict__.get("_selection_terms")
+    if cached is not None:
+        return cached
+    import itertools
+    from sa import collalg
+    from sa.cfg import TRUTHY
+    sel = ctx.fn(C.SHARD_PATHS)
+    out = {}
+    for sf, sh, lim in itertools.product((None, TRUTHY), repeat=3):
+        ca = collalg.CollAlg(sel, {"shard_filter": sf, "shards": sh,
+                                   "custom_metadata_type_limit": lim})
+        if len(ca.returns) != 1:
+            raise AnalysisError("shard selection: expected one return on the "
+                                f"specialised path, found {len(ca.returns)}")
+        out[(sf is not None, sh is not None, lim is not None)] = \
+            ca.term(ca.returns[0])
+    ctx.__dict__["_selection_terms"] = out
+    return out
+
+
+def check_select_order(ctx: Context, rep, rule: str) -> None:
+    rep.rule(
+        rule,
+        "for every combination of selection options the returned shard "
+        "paths derive from the walk of the requested split through "
+        "order-preserving steps only (filter, prefix slice, per-element "
+        "map); no sorting, set/dict iteration or re-grouping")
+    from sa import collalg
+    sel = ctx.fn(C.SHARD_PATHS)
+    for key, t in sorted(selection_terms(ctx).items()):
+        bad = collalg.reordering_on_path(t)
+        gens = [x for x in collalg.spine(t) if x[0] == "gen"]
+        ok_src = len(gens) == 1 and "shard_info_iterator(" in gens[0][1] and \
+            not collalg.sources(t)
+        opts = ", ".join(n for n, on in zip(("shard_filter", "shards",
+                                             "custom_metadata_type_limit"),
+                                            key) if on) or "no option"
+        rep.ob(rule, not bad and ok_src, loc=sel.loc(), where=sel.qualname,
+               construct=f"[{opts}] " + collalg.pretty(t)[:150] + (
+                   f" :: {bad}" if bad else ""),
+               message="selected shards keep the enumeration (= write) order",
+               sample=False)
+
+
 def run(ctx: Context, rep) -> None:
     rep.not_decided = (
         "that thread pools, asyncio and tf.data honour their documented "
@@ -169,6 +217,8 @@ def run(ctx: Context, rep) -> None:
                    "sorts per-element data only")
     rep.info("C03.order", f"{n_sites} reordering call(s) inspected in "
              f"{len(SEQ_FUNCS)} functions")
+
+    check_select_order(ctx, rep, "C03.select")
 
     rep.rule(
         "C03.walk",
